@@ -392,6 +392,16 @@ def scenario(name):
             x = fam["total-charge"]
             xc = x.conj()
             return [lambda: sr.tensordot(xc, x, 3), lambda: x.fuse((2, 0), (1,))], [x, xc]
+    elif name == "eigh||tensordot (fermionic, lazy signs)":
+        def make(maxsize=8192):
+            fresh(maxsize)
+            e = G.identity("Z2")
+            i = sr.BlockIndex({0: 2, 1: 2}, dual=False)
+            blocks = {(0, 0): np.array([[2.0, 1.0], [1.0, 3.0]]), (1, 1): np.array([[1.0, 0.5], [0.5, 4.0]])}
+            h = sr.FermionicArray(indices=(i, i.conj()), charge=e, blocks=blocks, symmetry="Z2")
+            h = h.phase_sector((1, 1)).phase_sector((0, 0)).phase_sector((0, 0)).phase_sector((1, 1)).phase_flip(0)  # pending sign on the odd sector
+            v = sr.FermionicArray(indices=(i,), charge=1, blocks={(1,): np.array([1.0, 2.0])}, symmetry="Z2", oddpos=3)
+            return [lambda: sr.linalg.eigh(h)[0], lambda: sr.tensordot(h, v, 1)], [h, v]
     else:
         raise KeyError(name)
     return make
@@ -405,6 +415,7 @@ SCENARIOS = [
     "svd_truncated||fuse",
     "conj||transpose (fermionic, lazy signs)",
     "fermionic tensordot||fuse",
+    "eigh||tensordot (fermionic, lazy signs)",
 ]
 
 
